@@ -9,6 +9,7 @@ for f in glob.glob(sd+'/*'):
 meta={"breaks_property":prop,"needs_to_manifest":needs,
  "confirmed":"scratch worktree: full suite passes with the patch; demonstration fails with it and passes without (tools/try_seed.sh)",
  "ran":"git -C /repo apply patch.diff; bin/check %s --tier quick; git -C /repo apply -R patch.diff"%prop,
- "detected":det,"caught_by":by,"origin":"sub-agent given only the property text and its own worktree"}
+ "detected":det,"caught_by":by,"origin":"sub-agent given only the property text and its own worktree",
+ "detecting_checks":sorted(set(__import__("re").findall(r"\bC\d\d\b", by.split(" label")[0]))) or [prop]}
 json.dump(meta,open(d+'/meta.json','w'),indent=1)
 print("kept",d)
